@@ -56,6 +56,7 @@ def run_blocked(case) -> dict:
     lk = threading.Lock()
     lk.acquire()
     leaf_mgrs: List[Any] = []
+    exiting_expected: List[Any] = []
     leaf_style = case.get("leaf", 0)
 
     def nxt(k):
@@ -78,11 +79,59 @@ def run_blocked(case) -> dict:
             leaf_mgrs.append(M())
             with leaf_mgrs[0]:
                 lk.acquire(True, 20)
-        else:
+        elif leaf_style == 3:
             leaf_mgrs.append(M())
             args = (True, 20)
             with leaf_mgrs[0]:
                 return lk.acquire(*args)
+        elif leaf_style in (4, 5):
+            # blocked inside the exit method itself, which goes by another name (alias) or through a decorator keeping self
+            import functools
+
+            def traced(fn):
+                @functools.wraps(fn)
+                def wrapper(self, *a):
+                    return fn(self, *a)
+                return wrapper
+
+            class Odd:
+                def __enter__(s):
+                    return s
+
+                def release(s, *exc):
+                    lk.acquire(True, 20)
+                    return False
+
+                __exit__ = release if leaf_style == 4 else traced(release)
+
+            leaf_mgrs.extend([M(), Odd()])
+            exiting_expected.append(leaf_mgrs[1])
+            with leaf_mgrs[0] as a:
+                with leaf_mgrs[1]:
+                    pass
+        else:
+            # the thread drives a coroutine that is blocked while running inside an __aexit__
+            class AOdd:
+                async def __aenter__(s):
+                    return s
+
+                async def __aexit__(s, *exc):
+                    lk.acquire(True, 20)
+                    return False
+
+            leaf_mgrs.extend([M(), AOdd()])
+            exiting_expected.append(leaf_mgrs[1])
+
+            async def leaf():          # noqa: F811  (the frame that is inspected is this coroutine's, named leaf as well)
+                with leaf_mgrs[0] as a:
+                    async with leaf_mgrs[1]:
+                        pass
+
+            co = leaf()
+            try:
+                co.send(None)
+            except StopIteration:
+                pass
 
     t = threading.Thread(target=level, args=(0,), daemon=True)
     probs = []
@@ -102,13 +151,16 @@ def run_blocked(case) -> dict:
         if st.error is not None:
             probs.append(f"blocked thread: error {st.error!r}")
         lf = [f for f in st.frames if f.funcname == "leaf"]
+        if leaf_style == 6:
+            lf = [f for f in lf if f.contexts or len(lf) == 1][-1:]       # the coroutine's frame (the driving function has none)
         if len(lf) != 1:
             probs.append(f"blocked thread: expected one leaf frame, got {len(lf)}")
         elif leaf_style != 0:
             got = [c.obj for c in lf[0].contexts]
-            if got != leaf_mgrs or any(c.is_exiting for c in lf[0].contexts):
+            ex = [c.obj for c in lf[0].contexts if c.is_exiting]
+            if got != leaf_mgrs or ex != exiting_expected:
                 probs.append(f"blocked thread (leaf style {leaf_style}): the frame blocked in a C call inside its with block reports contexts "
-                             f"{got}, its active managers are {leaf_mgrs}")
+                             f"{got} (exiting: {ex}), its active managers are {leaf_mgrs} (exiting: {exiting_expected})")
         mine = [f for f in st.frames if f.funcname in ("level", "nxt")]
         names = [f.funcname for f in st.frames]
         want_names = ["level", "nxt"] * (depth + 1)
@@ -203,7 +255,7 @@ class C07(PropCheck):
         out = []
         for depth in range(0, 7 if tier == "thorough" else 5):
             for _ in range(2 if tier == "quick" else 6):
-                out.append({"k": "blocked", "depth": depth, "nest": [rng.randint(0, 3) for _ in range(depth + 1)], "leaf": rng.randrange(4)})
+                out.append({"k": "blocked", "depth": depth, "nest": [rng.randint(0, 3) for _ in range(depth + 1)], "leaf": len(out) % 7})
         scheds: List[dict] = [{}]
         for r in range(0, 14):
             for a in range(1, 5):
